@@ -495,11 +495,20 @@ func (c *ctxT) check(cfg cfgT, cl call, status string, wire []byte, lines []stri
 	case len(els) == 0 && len(expEls) > 0:
 		c.fail("one-element", key, lines, "the call returned nil but wrote nothing")
 		return obs
+	case len(expEls) != 1 && len(els) == len(expEls) && !stray && (cl.entry == "enc" || cl.entry == "encel" || cl.entry == "reply" || cl.entry == "replyel"):
+		// round E (review A-5): the VALUE encodes to several top-level elements (or none) and the
+		// call reports success: not "exactly one complete top-level element"
+		c.fail("one-element", "value-of-many-elements", lines, fmt.Sprintf("the value handed to %s encodes to %d top-level elements; the call returned nil and wrote all of them: %q", cl.entry, len(expEls), clip(wire)))
+		return obs
 	case len(els) != len(expEls) || stray:
 		c.fail("one-element", key, lines, fmt.Sprintf("%d top-level elements on the wire (stray=%v), expected %d: %q", len(els), stray, len(expEls), clip(wire)))
 		return obs
 	}
 	for i := range els {
+		// round E (review A-2): "every outgoing stanza carries the stream's content namespace"
+		if ws, ok := els[i][0].(xml.StartElement); ok && isStanzaName(ws.Name) && ws.Name.Space != cfg.ns {
+			c.fail("stream-namespace", "other-stanza-namespace", lines, fmt.Sprintf("a top-level <%s> in %q went out on a stream whose content namespace is %q (completed like a stanza of the stream); wire %q", ws.Name.Local, ws.Name.Space, cfg.ns, clip(wire)))
+		}
 		// the from address of a stanza on a server-to-server stream: the caller's, else the
 		// address the session reports as its own (LocalAddr(), verified when the session was made)
 		if ws, ok := els[i][0].(xml.StartElement); ok && cfg.from != "" {
@@ -958,7 +967,7 @@ func (c *ctxT) concurrent(cfg cfgT, rnd *common.Rand, nG, nK int, caseNo int) {
 		s := el[0].(xml.StartElement)
 		mk := ""
 		for _, a := range s.Attr {
-			if a.Name.Local == "id" {
+			if a.Name.Space == "" && a.Name.Local == "id" {
 				mk = a.Value
 			}
 		}
@@ -1045,6 +1054,45 @@ func corpus() []call {
 		call{entry: "pres", form: "reader", toks: el("", "presence", nil)},
 		call{entry: "send", form: "reader", toks: el("", "message", nil, xml.CharData(strings.Repeat("A", 70000)))},
 	)
+	// round E (review A-5): a value that encodes to two sibling elements
+	two := append(el("urn:a", "a", nil), el("urn:a", "b", nil)...)
+	for _, f := range []string{"reader", "marshaler", "xmlm"} {
+		cs = append(cs, call{entry: "enc", form: f, toks: two})
+	}
+	// round E (review A-1), witnesses on the tree before `fix: the stanza encoder takes any
+	// attribute with the local name id / from / xmlns ...`: attributes that only share the LOCAL
+	// name with id / from / xmlns are other attributes
+	nsAt := func(kv ...string) []xml.Attr {
+		var as []xml.Attr
+		for i := 0; i+2 < len(kv); i += 3 {
+			as = append(as, xml.Attr{Name: xml.Name{Space: kv[i], Local: kv[i+1]}, Value: kv[i+2]})
+		}
+		return as
+	}
+	for _, as := range [][]xml.Attr{
+		nsAt(nsXML, "id", "x1"),                            // xml:id is not the stanza id: an id must be generated
+		nsAt("urn:attr", "id", "n1", "", "type", "get"),    // the same with an extension namespace
+		nsAt("urn:attr", "from", "o@example.org"),          // does not stand for the from of an s2s stanza
+		nsAt("urn:attr", "id", "", "urn:attr", "from", ""), // empty values: kept, they are not id / from
+		nsAt("urn:attr", "xmlns", "urn:v"),                 // not a namespace declaration
+		nsAt("", "id", "p1", "urn:attr", "id", "n1", "", "from", "a@example.org", "urn:attr", "from", "f"),
+	} {
+		for _, loc := range []string{"iq", "message", "presence"} {
+			for _, sp := range []string{"", nsClient, nsServer} {
+				cs = append(cs, call{entry: "send", form: "reader", toks: el(sp, loc, as, el("urn:a", "x", nsAt("urn:attr", "xmlns", "v", "urn:attr", "id", ""))...)})
+			}
+		}
+		cs = append(cs,
+			call{entry: "tw", form: "reader", toks: el("", "message", as)},
+			call{entry: "enc", form: "marshaler", toks: el("", "presence", as)},
+			call{entry: "enc", form: "xmlm", toks: el(nsClient, "message", as)},
+			call{entry: "sendel", form: "reader", toks: q, start: &xml.StartElement{Name: xml.Name{Local: "iq"}, Attr: as}},
+			call{entry: "encel", form: "reader", toks: q, start: &xml.StartElement{Name: xml.Name{Local: "message"}, Attr: as}},
+			call{entry: "reply", form: "reader", toks: el("", "iq", as)},
+			call{entry: "msg", form: "reader", toks: el("", "message", as)},
+			call{entry: "pres", form: "reader", toks: el("", "presence", as)},
+		)
+	}
 	return cs
 }
 
@@ -1129,6 +1177,24 @@ func Run(r *common.Run) error {
 				}
 				continue
 			}
+			if len(f) == 12 && f[0] == "C05" && f[1] == "queued" {
+				cl := call{entry: f[4], form: f[7]}
+				if f[5] != "-" {
+					if st, err := decToks(f[5]); err == nil && len(st) == 1 {
+						if s, ok := st[0].(xml.StartElement); ok {
+							cl.start = &s
+						}
+					}
+				}
+				ts, err1 := decToks(f[6])
+				ws, err2 := decToks(f[10])
+				if err1 == nil && err2 == nil {
+					cl.toks = ts
+					c.queued(mkCfg(f[2], f[3]), cl, f[8], f[9], ws)
+					executed++
+				}
+				continue
+			}
 			if len(f) == 15 && f[0] == "C05" && f[1] == "wfault" {
 				cl := call{entry: f[4], form: f[7]}
 				if f[5] != "-" {
@@ -1153,6 +1219,12 @@ func Run(r *common.Run) error {
 				executed++
 				continue
 			}
+			pendN, pendMode := 0, ""
+			if len(f) == 10 && f[0] == "C05" && f[1] == "pend" {
+				pendN, _ = strconv.Atoi(f[2])
+				pendMode = f[3]
+				f = append([]string{"C05", "tx"}, f[4:]...)
+			}
 			if len(f) != 8 || f[0] != "C05" || f[1] != "tx" {
 				continue
 			}
@@ -1174,7 +1246,10 @@ func Run(r *common.Run) error {
 				continue // a line that was clipped for the report
 			}
 			cl.toks = ts
-			if scenario == "" && len(lines) == 1 {
+			if pendN > 0 {
+				c.pending(cfg, cl, pendN, pendMode)
+				executed++
+			} else if scenario == "" && len(lines) == 1 {
 				c.one(cfg, cl, "replay")
 				executed++
 			}
@@ -1216,6 +1291,7 @@ func Run(r *common.Run) error {
 			if i%10 == 0 {
 				c.autoReply(cfgs[i%len(cfgs)])
 				c.behindCorpus(cfgs[i%len(cfgs)])
+				c.queuedCorpus(cfgs[i%len(cfgs)])
 			}
 		}
 		return nil
@@ -1236,6 +1312,14 @@ func Run(r *common.Run) error {
 	r.Mark("case calls queued behind a sender that stops inside its element")
 	for _, cfg := range cfgs {
 		c.behindCorpus(cfg)
+	}
+	r.Mark("case a call returns while another call is queued for the output lock behind it")
+	for _, cfg := range cfgs {
+		c.queuedCorpus(cfg)
+	}
+	r.Mark("case requests with the same id are still waiting for their response")
+	for _, cfg := range cfgs {
+		c.pendingCorpus(cfg)
 	}
 	r.Mark("case one write of the transport answered with a fault")
 	for _, cfg := range cfgs {
@@ -1286,6 +1370,8 @@ func Run(r *common.Run) error {
 		k := 1 + rnd.Intn(len(toks)-1)
 		c.behind(cfg, pickS(rnd, []string{"fail", "finish", "twfail", "encfail"}), rnd.Intn(k+1), k, toks, cl)
 	}
+	c.queuedRandom(rnd, r.Pick(150, 2500))
+	c.pendingRandom(rnd, r.Pick(150, 2500))
 	nW := r.Pick(200, 3000)
 	for i := 0; i < nW; i++ {
 		cfg := cfgs[rnd.Intn(len(cfgs))]
